@@ -143,27 +143,76 @@ def send_flags(fn) -> list[bool]:
     return v.flags
 
 
-def except_tuples(fn) -> list[list[str]]:
-    """For every ``except`` clause (source order) and ``contextlib.suppress(...)``: the class names."""
-    out: list[tuple[int, list[str]]] = []
+def _local_helper(call: ast.Call, fn):
+    """The private helper a call refers to, if it is one we can see: `self._x(...)` / `cls._x(...)` (a function of the
+    class `fn` is defined in) or `_x(...)` (a function of fn's module).  None for everything else."""
+    module = inspect.getmodule(fn)
+    target = None
+    f = call.func
+    if isinstance(f, ast.Attribute) and isinstance(f.value, ast.Name) and f.value.id in ("self", "cls") and f.attr.startswith("_") \
+            and not f.attr.startswith("__"):
+        owner = module
+        for part in fn.__qualname__.split(".")[:-1]:
+            owner = getattr(owner, part, None)
+            if owner is None or part == "<locals>":
+                return None
+        if not inspect.isclass(owner):
+            return None
+        try:
+            target = inspect.getattr_static(owner, f.attr)
+        except AttributeError:
+            return None
+        target = getattr(target, "__func__", target)
+    elif isinstance(f, ast.Name) and f.id.startswith("_") and not f.id.startswith("__"):
+        target = getattr(module, f.id, None)
+    if not inspect.isfunction(target) or inspect.getmodule(target) is not module or target is fn:
+        return None
+    if any(target is site for site in _SITE_FUNCS):
+        return None          # a function whose clauses are a table of their own
+    return target
 
-    def names(t) -> list[str]:
+
+_SITE_FUNCS: list = []
+
+
+def except_tuples(fn) -> list[list[str]]:
+    """For every ``except`` clause (source order) and ``contextlib.suppress(...)``: the class names.  A clause that an
+    extract-method refactoring moved into a private helper of the same class or module is found where the helper is
+    called (two levels deep at most), so that its position in the list stays what it was."""
+    out: list[tuple[tuple, list[str]]] = []
+
+    def names(t, module=None) -> list[str]:
         if t is None:
             return ["BaseException"]
         if isinstance(t, ast.Tuple):
-            return [n for e in t.elts for n in names(e)]
+            return [n for e in t.elts for n in names(e, module)]
         if isinstance(t, ast.Name):
+            # a module-level constant holding a tuple of classes (`_READ_ERRORS = (OSError, ValueError)`) is expanded
+            const = getattr(module, t.id, None) if module is not None else None
+            if isinstance(const, tuple) and const and all(inspect.isclass(c) and issubclass(c, BaseException) for c in const):
+                return [c.__name__ for c in const]
             return [t.id]
         if isinstance(t, ast.Attribute):
             return [t.attr]
         raise ExtractError("except clause with a computed class")
 
-    for node in ast.walk(fn_ast(fn)):
-        if isinstance(node, ast.ExceptHandler):
-            out.append((node.lineno * 1000 + node.col_offset, names(node.type)))
-        if isinstance(node, ast.Call) and isinstance(node.func, ast.Attribute) and node.func.attr == "suppress":
-            out.append((node.lineno * 1000 + node.col_offset, [n for a in node.args for n in names(a)]))
-    return [n for _, n in sorted(out)]
+    def visit(f, prefix: tuple, depth: int, seen: tuple) -> None:
+        module = inspect.getmodule(f)
+        for node in ast.walk(fn_ast(f)):
+            if isinstance(node, ast.ExceptHandler):
+                out.append((prefix + (node.lineno, node.col_offset), names(node.type, module)))
+            elif isinstance(node, ast.Call) and isinstance(node.func, ast.Attribute) and node.func.attr == "suppress":
+                out.append((prefix + (node.lineno, node.col_offset), [n for a in node.args for n in names(a, module)]))
+            elif isinstance(node, ast.Call) and depth < 2:
+                helper = _local_helper(node, f)
+                if helper is not None and helper not in seen:
+                    try:
+                        visit(helper, prefix + (node.lineno, node.col_offset), depth + 1, seen + (helper,))
+                    except (OSError, TypeError, ExtractError):
+                        pass
+
+    visit(fn, (), 0, (fn,))
+    return [n for _, n in sorted(out, key=lambda e: e[0])]
 
 
 # ----------------------------------------------------------------------------------------------
@@ -622,6 +671,7 @@ def extract(repo: str):
         "excMqttIncoming": (mc._handle_incoming, None),
     }
     js["except"] = {}
+    _SITE_FUNCS[:] = [getattr(fn, "__func__", fn) for fn, _ in exc_sites.values()]
     for n, (fn, _) in exc_sites.items():
         tuples = except_tuples(fn)
         if n == "excMissingNC":
